@@ -347,6 +347,19 @@ def k5(ctx):
                 pn = cfg.cnode_of(p)
                 ctx.require(pn is not None, 'predicate call not in CFG of %s' % inst(f))
                 if cfg.nodes[pn].kind != 'cond':
+                    # `const bool is_leaf = pred && call(...)`: the branch on that local stands
+                    # for the branch on the predicate
+                    a = cfg.nodes[pn].ast
+                    var = None
+                    if a is not None:
+                        for v in a.find('VarDecl'):
+                            if any(x is p for x in v.walk()):
+                                var = v.name
+                    conds = [cn for cn in cfg.nodes if cn.kind == 'cond' and cn.ast is not None and
+                             member_path(cn.ast) == var] if var else []
+                    if len(conds) == 1 and cfg.dominates(pn, conds[0].idx):
+                        pn = conds[0].idx
+                if cfg.nodes[pn].kind != 'cond':
                     # not a branch condition: the order can still be decided
                     if pn in cfg.forward_reachable([gn]) and pn != gn:
                         ok = False
@@ -404,8 +417,8 @@ def _guarded_by_pred(cfg, gn, pn, pred_call):
 
 
 # --------------------------------------------------------------------------------------------
-def _depth_checks(f):
-    """comparisons against MAX_RECURSION_DEPTH in f's own body: list of (node, op, lhs, rhs)"""
+def _depth_checks_own(f):
+    """comparisons against MAX_RECURSION_DEPTH in f's own body: list of (node, op, lhs)"""
     out = []
     for n in f.body.walk():
         if n.kind == 'BinaryOperator' and n.op in ('>', '>=', '<', '<=', '==', '!='):
@@ -417,6 +430,56 @@ def _depth_checks(f):
                 flip = {'>': '<', '<': '>', '>=': '<=', '<=': '>=', '==': '==', '!=': '!='}
                 out.append((n, flip[n.op], r))
     return out
+
+
+_PROG = [None]
+
+
+def _depth_checks(f):
+    """depth checks of f: its own comparisons, or a call of a small non-recursive helper that
+    compares one of its parameters with MAX_RECURSION_DEPTH (the call node then stands for the
+    check and the argument for the compared value)"""
+    own = _depth_checks_own(f)
+    if own:
+        return own
+    prog = _PROG[0]
+    out = []
+    if prog is None or f.body is None:
+        return out
+    for c in calls_in(f.body):
+        t = callee_func(prog, f, c)
+        if t is None or t.body is None or t.qualname == f.qualname or t.is_lambda:
+            continue
+        inner = _depth_checks_own(t)
+        if not inner:
+            continue
+        n, op, lhs = inner[0]
+        pn = member_path(lhs)
+        pnames = [p[0] for p in t.params]
+        if pn in pnames:
+            args = c.call_args()
+            i = pnames.index(pn)
+            if i < len(args) and args[i] is not None:
+                out.append((c, op, args[i]))
+    return out
+
+
+def _check_raises(prog, f, node, parent):
+    """the failing edge of the depth check raises RecursionError"""
+    if node.kind in CALL_KINDS:
+        t = callee_func(prog, f, node)
+        if t is not None and t.body is not None:
+            inner = _depth_checks_own(t)
+            if inner:
+                tp = enclosing_map(t.body)
+                ifs = [a for a in ancestors(inner[0][0], tp) if a.kind == 'IfStmt']
+                return bool(ifs) and _raises_recursion_error(ifs[0].kids[1] if len(ifs[0].kids) > 1 else None)
+        return False
+    ifs = [a for a in ancestors(node, parent) if a.kind == 'IfStmt']
+    if ifs:
+        kids = list(ifs[0].kids)
+        return _raises_recursion_error(kids[1] if len(kids) > 1 else None)
+    return False
 
 
 def _raises_recursion_error(stmt):
@@ -441,13 +504,7 @@ def depth_descriptor(ctx, prog, f):
         return None
     n, op, lhs = checks[0]
     parent = enclosing_map(f.body)
-    ifs = [a for a in ancestors(n, parent) if a.kind == 'IfStmt']
-    raises = False
-    if ifs:
-        i = ifs[0]
-        kids = list(i.kids)
-        then = kids[1] if len(kids) > 1 else None
-        raises = _raises_recursion_error(then)
+    raises = _check_raises(prog, f, n, parent)
     cfg = cfg_of(f)
     cn = cfg.cnode_of(n)
     # placement: the check dominates every classification (GetKind) and predicate call
@@ -468,6 +525,7 @@ def depth_descriptor(ctx, prog, f):
 @rule('K8', floor=3, title='the forward traversals agree on the depth limit check')
 def k8(ctx):
     prog = ctx.cxx()
+    _PROG[0] = prog
     descs = {}
     for name in ('PyTreeSpec::FlattenIntoImpl', 'PyTreeSpec::FlattenIntoWithPathImpl',
                  'PyTreeIter::NextImpl'):
@@ -566,6 +624,7 @@ def _depth_initial(prog, f):
 @rule('K9', floor=3, title='every recursive cycle of the engine call graph is bounded by MAX_RECURSION_DEPTH')
 def k9(ctx):
     prog = ctx.cxx()
+    _PROG[0] = prog
     sccs = prog.sccs()
     ctx.require(sccs, 'no recursive cycle found in the engine call graph (flatten is recursive)')
     seen = set()
